@@ -26,6 +26,7 @@ CXX_KW = ["class", "int", "namespace", "operator", "template", "new", "delete", 
 P21_KW = ["header", "data", "endsec", "iso", "scope", "endscope"]
 PY_KW = ["lambda", "def", "pass", "none", "import", "global", "yield", "with", "assert", "del", "elif", "except", "finally",
          "is", "nonlocal", "raise", "print", "id", "object", "dict", "tuple", "str", "len", "range", "super", "property"]
+LIB_CLASS_NAMES = {"registry"}      # generated identifiers which, capitalised, are class names of the run-time library
 SC_INTERNAL = ["sdai", "registry", "schema_", "entitydescriptor", "attributes", "stepwrite", "name", "error", "nil", "std", "c"]
 
 
@@ -203,6 +204,14 @@ def schemas(draw, cfg=None):
                         continue
                 items.append(nm.fresh())
                 scope.add(items[-1])
+            if name.lower() in LIB_CLASS_NAMES:
+                # finding F89: exp2cxx writes "enum Registry {...}" into the global namespace, where the run-time library has
+                # a class of that name
+                excluded.append("enumeration named like a class of the run-time library (finding F89)")
+                name = name + "_e"
+                while name in nm.used:
+                    name = name + "e"
+                nm.used.add(name)
             t = {"name": name, "kind": "enum", "items": items}
             enums.append(name)
         elif c < 65 and enums and cfg.get("enum_alias", True):
